@@ -265,7 +265,9 @@ def iobuffers_fns(external=False):
                 lemma_skip_concat(range(buf.addr(), buf.slen()), cells(self.buffers@), minn(rem as int, buf.slen() as int));
                 if rem >= buf.slen() { lemma_skip_skip(all, c0, buf.slen() as int); } else { lemma_skip_skip(all, c0, rem as int); }
             }'''),
-                    ('self.buffers.push_front(buf.offset(rem).unwrap());', 'after',
+                    # anchored on the `break` that follows the push (not on the push statement itself: a version that pushes something else back is then
+                    # still extracted and fails the loop's exit clause / these asserts instead of losing the anchor)
+                    ('break;', 'before',
                      '''proof {
                     let nb = self.buffers@[0];
                     assert(self.buffers@.skip(1) =~= rest0);
